@@ -170,7 +170,8 @@ SendC2S(e, w) ==
                    !.md = e.md, !.first = IF @ = "" THEN "new" ELSE @,
                    \* the RPC's context may have ended before its stream reached the wire
                    !.cliEnd = IF @ = "" /\ TagOf(e) \in DOMAIN rp /\ rp[TagOf(e)].localCause # {}
-                              THEN (IF 1 \in rp[TagOf(e)].localCause THEN "cancel" ELSE "deadline") ELSE @ ]
+                              THEN (IF 1 \in rp[TagOf(e)].localCause THEN "cancel"
+                                    ELSE IF 4 \in rp[TagOf(e)].localCause THEN "deadline" ELSE "encode") ELSE @ ]
     [] e.kind = "msg" ->
         [ w EXCEPT !.cOpen = e.size - e.len, !.cEnv = Append(@, e.size), !.cBytes = @ + e.len,
                    !.first = IF @ = "" THEN "msg" ELSE @ ]
@@ -424,6 +425,7 @@ WithTrailers(r, e) ==
                   !.trlT = IF "trlT" \in DOMAIN e THEN e.trlT ELSE MD0 ]
   ELSE r
 
+HasOpt(o, x) == \E i \in 1..Len(o) : o[i] = x
 OOpStart(e) ==
   /\ LET r == RPof(e.rpc)
      IN rp' = SetRP(e.rpc,
@@ -433,10 +435,15 @@ OOpStart(e) ==
                                         !.method = e.method, !.mdSent = e.md, !.opts = e.opts,
                                         !.afterDone = tun.chdone ]
                    IN IF e.op = "invoke"
-                      THEN [ r1 EXCEPT !.sentC = Append(@, <<e.rpc, "c", e.idx, e.size>>), !.recvC = @ + 2 ]
+                      THEN IF HasOpt(e.opts, "badreq")
+                           \* the application passes a request that cannot be encoded: the call ends there (local cause 5),
+                           \* nothing of the request is sent
+                           THEN [ r1 EXCEPT !.localCause = @ \cup {5} ]
+                           ELSE [ r1 EXCEPT !.sentC = Append(@, <<e.rpc, "c", e.idx, e.size>>), !.recvC = @ + 2 ]
                       ELSE r1
               [] e.op = "send" ->
-                   [ r EXCEPT !.sentC = Append(@, <<e.rpc, "c", e.idx, e.size>>) ]
+                   \* (a message that cannot be encoded is refused and nothing of it is sent)
+                   IF "bad" \in DOMAIN e THEN r ELSE [ r EXCEPT !.sentC = Append(@, <<e.rpc, "c", e.idx, e.size>>) ]
               [] e.op = "recv" -> [ r EXCEPT !.recvC = @ + 1 ]
               [] OTHER -> r
           ELSE
@@ -888,6 +895,7 @@ C02_RequestMD == /\ \A r \in ORpcs : (rp[r].inv > 0 /\ rp[r].cstart /\ RealCli) 
 LocalOK(r, res) ==
   \/ 1 \in rp[r].localCause /\ res.cls = "err" /\ res.code = 1
   \/ 4 \in rp[r].localCause /\ res.cls = "err" /\ res.code = 4
+  \/ 5 \in rp[r].localCause /\ res.cls = "err"
   \/ rp[r].sid \in OSids /\ ws[rp[r].sid].cliEnd = "tunnel" /\ res.cls = "err"
   \/ (tun.causes # {} \/ tun.marshalFail \/ tun.chdone \/ tun.cliMustDie) /\ res.cls = "err"
 C07_OneLegalOutcome ==
